@@ -12,6 +12,8 @@ package customize
 // test seam), the customize webhook.
 
 import (
+	"sync"
+
 	"k8s.io/apimachinery/pkg/apis/meta/v1/unstructured"
 	"k8s.io/apimachinery/pkg/runtime/schema"
 
@@ -116,3 +118,76 @@ func VerifC20_RelatedInformerLifecycle() {
 }
 
 var _ = dynamicdiscovery.APIResource{}
+
+// VerifC17_ConcurrentRelated — two workers (or the parallel per-revision hook
+// calls of a rolling update) ask the same customize Manager for the related
+// objects of two distinct parents at the same time. Decided: the happens-before
+// race detector of the executor (every access to a Go map is checked against
+// the vector clocks of the goroutines) plus the sequential-equivalence oracle:
+// both calls succeed, one subscription per related resource, released on stop.
+func VerifC17_ConcurrentRelated() {
+	stub.Reset()
+	dynamicinformer.VerifNewSharedIndexInformer = stub.NewSharedIndexInformer
+	dynamicinformer.VerifNewLister = stub.NewLister
+
+	w := env.NewWorld()
+	factory := dynamicinformer.NewSharedInformerFactory(w.Dyn, 0)
+	rules := []*v1alpha1.RelatedResourceRule{{ResourceRule: v1alpha1.ResourceRule{APIVersion: "v1", Resource: "configmaps"}, Names: []string{"a"}, Namespace: "ns"}}
+	hook := &verifC15Hook{rules: rules}
+	cc := &v1alpha1.CompositeController{}
+	cc.Name = "cc"
+	cc.Spec.Hooks = &v1alpha1.CompositeControllerHooks{Customize: &v1alpha1.Hook{}}
+	parentLister := env.NewLister()
+	var enqMu sync.Mutex
+	var enq []interface{}
+	mgr := &Manager{
+		name:             "cc",
+		controller:       cc,
+		parentKinds:      common.GroupKindMap{},
+		dynClient:        w.Dyn,
+		dynInformers:     factory,
+		parentInformers:  common.InformerMap{},
+		relatedInformers: make(common.InformerMap),
+		customizeCache:   newResponseCache(),
+		enqueueParent: func(o interface{}) {
+			enqMu.Lock()
+			defer enqMu.Unlock()
+			enq = append(enq, o)
+		},
+		customizeHook: hook,
+	}
+	mgr.parentKinds.Set(schema.GroupKind{Group: env.ThingRes.Group, Kind: env.ThingRes.Kind}, env.ThingRes)
+	mgr.parentInformers.Set(verifC15GVR(env.ThingRes), dynamicinformer.VerifNewResourceInformer(parentLister))
+	stopCh := make(chan struct{})
+	mgr.Start(stopCh)
+	p1 := env.Thing("ns", "p1", "u1")
+	p2 := env.Thing("ns", "p2", "u2")
+	parentLister.Items = []*unstructured.Unstructured{p1, p2}
+	// the related informer may exist already (an earlier sync created it) or not
+	warm := rt.Bool("related-informer-already-created")
+	if warm {
+		_, err := mgr.GetRelatedObjects(p1)
+		rt.Assert(err == nil, "concurrent-related/warm-up-error")
+	}
+
+	var wg sync.WaitGroup
+	var err1, err2 error
+	wg.Add(2)
+	go func() {
+		defer wg.Done()
+		_, err1 = mgr.GetRelatedObjects(p1)
+	}()
+	go func() {
+		defer wg.Done()
+		_, err2 = mgr.GetRelatedObjects(p2)
+	}()
+	wg.Wait()
+	rt.Assert(err1 == nil, "concurrent-related/first-error")
+	rt.Assert(err2 == nil, "concurrent-related/second-error")
+	rt.Assert(factory.VerifRefCount("v1", "configmaps") == 1, "concurrent-related/not-exactly-one-subscription")
+	close(stopCh)
+	mgr.Stop()
+	rt.Assert(factory.VerifRefCount("v1", "configmaps") == 0, "concurrent-related/subscription-leaked-after-stop")
+	rt.Assert(factory.VerifRunning() == 0, "concurrent-related/shared-informer-still-held-after-stop")
+	rt.Cover("concurrent-related/done")
+}
